@@ -698,6 +698,8 @@ def run(ck, rng, tier):
     # string vectors get the text of very large doubles
     hs[0] = [["m_new", 0, 3, 0], ["dv_new", 1, 1], ["dv_set", 1, 0, 7.0], ["m_appcol", 0, 1], ["dv_new", 2, 0], ["m_new", 1, 3, 0], ["m_appcol", 1, 2],
              ["m_new", 2, 2, 0], ["dv_new", 3, 4], ["dv_set", 3, 3, 2.5], ["m_appcol", 2, 3], ["m_get", 0, 0, 0], ["m_resize", 1, 2, 2]]
+    hs[2] = [["dv_new", 0, 0], ["dv_append", 0, 0.75], ["dv_append", 0, 0.5], ["dv_append", 0, 0.25], ["dv_append", 0, 0.0], ["dv_append", 0, -0.5],
+             ["dv_append", 0, 0.625], ["dv_sort", 0], ["dv_get", 0, 0], ["dv_new", 1, 3], ["dv_set", 1, 0, 2.5], ["dv_set", 1, 1, 2.25], ["dv_set", 1, 2, 2.0], ["dv_sort", 1]]
     hs[1] = [["s_init", 0], ["s_appdbl", 0, 1e57], ["s_appdbl", 0, -3.5e120], ["s_appdbl", 0, 1e300], ["s_appdbl", 0, 0.25], ["s_new", 1, 2], ["s_extend", 0, 1, 2]]
     with ThreadPoolExecutor(max_workers=14) as ex:
         results = list(ex.map(lambda o: run_history(exe, o), hs))
